@@ -177,12 +177,21 @@ Section Confine.
                  (handle_file c' p (File n k s0 d ff) false st') as [s' [| |a']|s' pc'];
           cbn [sim_res] in S; try contradiction; destruct S as [E S]; try discriminate; try (apply IH; exact S); split; assumption.
       + destruct (c_gitignore c).
-        * destruct (parse_parent_gitignores t p) as [ms|]; [|split; [reflexivity|exact H]].
-          pose proof (walk_dir_unsorted_sim t p _ _ (sk_set_stack st st' ms H)) as S.
-          destruct (walk_dir_unsorted c t p (set_stack st ms)) as [s [| |a]|s pc],
-                   (walk_dir_unsorted c' t p (set_stack st' ms)) as [s' [| |a']|s' pc'];
-            cbn [sim_res] in S; try contradiction; destruct S as [E S]; try discriminate;
-            try (apply IH; apply sk_set_stack; exact S); try (split; [assumption|apply sk_set_stack; exact S]); split; assumption.
+        * change (c_fatal c') with (c_fatal c).
+          assert (G : forall ms, sim_res
+              (match walk_dir_unsorted c t p (set_stack st ms) with
+               | WPanic s pc => WPanic s pc | WOk s (Abort a) => WOk (set_stack s []) (Abort a)
+               | WOk s _ => walk_individual_paths c t ps (set_stack s []) end)
+              (match walk_dir_unsorted c' t p (set_stack st' ms) with
+               | WPanic s pc => WPanic s pc | WOk s (Abort a) => WOk (set_stack s []) (Abort a)
+               | WOk s _ => walk_individual_paths c' t ps (set_stack s []) end)).
+          { intros ms. pose proof (walk_dir_unsorted_sim t p _ _ (sk_set_stack st st' ms H)) as S.
+            destruct (walk_dir_unsorted c t p (set_stack st ms)) as [s [| |a]|s pc],
+                     (walk_dir_unsorted c' t p (set_stack st' ms)) as [s' [| |a']|s' pc'];
+              cbn [sim_res] in S; try contradiction; destruct S as [E S]; try discriminate;
+              try (apply IH; apply sk_set_stack; exact S); try (split; [assumption|apply sk_set_stack; exact S]); split; assumption. }
+          destruct (parse_parent_gitignores t p) as [ms|]; [apply G|].
+          destruct (c_fatal c); [split; [reflexivity|exact H]|apply G].
         * pose proof (walk_dir_unsorted_sim t p _ _ H) as S.
           destruct (walk_dir_unsorted c t p st) as [s [| |a]|s pc],
                    (walk_dir_unsorted c' t p st') as [s' [| |a']|s' pc'];
